@@ -23,7 +23,8 @@ def run(chk):
         return [(i, {"kind": "oracle", "oracle": "C16", "what": m, "script": s, "observed": o, "driver": "runner_driver"})
                 for i, (s, o) in enumerate(zip(seqs, obs)) for m in [oracles.check_seq("C16", s, o)] if m]
 
-    rc.run_runner_check(chk, "C11", "proj_C11", OPTS, theorems_ok=ok, extra_oracle=handler_protocol)
+    rc.run_runner_check(chk, "C11", "proj_C11", OPTS, theorems_ok=ok, extra_oracle=handler_protocol,
+                        extra_seqs=rc.hold_hung_sequences(chk.rng, OPTS, modes=("execute",)))
     # the outcome builders used when a Policy has no retry component, and circuit-open outcomes: Policy model
     import policy_common as pc
     pc.run_policy_check(chk, "C11", "proj_P12", {"mode": "execute", "p_no_retry": 0.6, "p_nested_coe": 0.3, "p_special": 0.3,
